@@ -32,7 +32,8 @@ def mc_all(cfg_suffix, fams=FAMS, cfg_override=None):
 
 
 def run_direct_property(prop, eps, sizes, nrandom, want_default, extra_must=None, mc_suffix=None,
-                        cfg_override=None, lifts=1, evidence_extra=None, reject_is_violation=None):
+                        cfg_override=None, lifts=1, evidence_extra=None, reject_is_violation=None,
+                        rows_fn=None, fams=FAMS, decl_filter=None, nshards=4):
     """Generic driver: model-check the four family slices, replay a seeded sample of the TLC-enumerated
     declarations (every enumerated input and more) into freshly generated code, validate the recorded
     trace against the specification."""
@@ -41,15 +42,17 @@ def run_direct_property(prop, eps, sizes, nrandom, want_default, extra_must=None
     rng = random.Random(seed())
     strenv.verify()
     verdict = Verdict(prop)
-    mcs = mc_all(mc_suffix or T, cfg_override=cfg_override)
+    mcs = mc_all(mc_suffix or T, fams=fams, cfg_override=cfg_override)
     stats = {}
     mc_states = mc_trans = 0
     n_decl_space = {}
     all_decls = []
     samples_out = []
     not_evaluated = {}
-    for fam in FAMS:
+    for fam in fams:
         r, adecls = mcs[fam]
+        if decl_filter:
+            adecls = [ad for ad in adecls if decl_filter(ad)]
         mc_states += r.distinct
         mc_trans += r.generated
         n_decl_space[fam] = len(adecls)
@@ -59,8 +62,10 @@ def run_direct_property(prop, eps, sizes, nrandom, want_default, extra_must=None
         name = "%s_%s" % (prop.lower(), fam)
 
         def rows_of(d, _rng=rng):
+            if rows_fn:
+                return rows_fn(d, _rng)
             return CV.rows_direct(d, _rng, nrandom, eps=eps, with_default=want_default)
-        obs, rejected, alive = CV.build_and_run(name, decls, rows_of, feats, feats, nshards=4)
+        obs, rejected, alive = CV.build_and_run(name, decls, rows_of, feats, feats, nshards=nshards)
         for k, msgs in rejected.items():
             not_evaluated[k] = msgs[:3]
             if reject_is_violation and reject_is_violation(msgs):
